@@ -66,9 +66,9 @@ def r1_table(m):
             r.ob(ok)
             if not ok:
                 expl = {"right": "the operator is split at the %s occurrence, so equal-precedence operators associate to the %s"
-                                 % (("rightmost", "left") if got["right"] else ("leftmost", "right")),
-                        "lhs": "the left operand is parsed as %s" % got["lhs"], "rhs": "the right operand is parsed as %s" % got["rhs"],
-                        "op": "the operator pattern is %s" % got["op"], "exclude": "the excluded operator pattern is %s" % got["exclude"]}[key]
+                                 % (("rightmost", "left") if got.get("right") else ("leftmost", "right")),
+                        "lhs": "the left operand is parsed as %s" % got.get("lhs"), "rhs": "the %soperand is parsed as %s" % ("right " if "lhs" in got else "", got.get("rhs")),
+                        "op": "the operator pattern is %s" % got.get("op"), "exclude": "the excluded operator pattern is %s" % got.get("exclude")}[key]
                 r.fail("%s|%s" % (name, key), "%s (%s): %s; the standard requires %s=%r" % (name, lv["rule"], expl, key, want[key]), where)
         # fall-through
         sub = m.classes[k]["subclass_names"] or []
